@@ -134,6 +134,12 @@ def _spellings():
     for key in ("da", "d1", "ds", "da2", "df", "t", "mt", "g", "b", "b2", "src", "fsrc", "s", "s2", "pr", "ft", "rd",
                 "f", "dx"):
         add("entity:" + key, lambda c, key=key: c[key])
+    # objects of the right class that can never be linked: of the other block, of ANOTHER FILE, deleted again
+    for key in ("xf", "dy", "mte", "sk", "ofd", "off", "oft", "ofsrc", "ofs", "ofs2", "ofb", "of", "dead_da", "dead_df", "dead_s"):
+        add("entity:" + key, lambda c, key=key: c[key])
+    for key in ("da2", "d1", "s", "s2", "ofs", "dead_s", "df", "xf"):
+        add("id-of:" + key, lambda c, key=key: c[key].id)
+    add("id:unknown", lambda c: "4a6b1e0c-7d11-4c58-9f0e-3b5a2c1d0e9f")
     add("list:entities:own+foreign", lambda c: [c["d1"], c["da2"]])
     add("list:entities:own+kind", lambda c: [c["d1"], c["t"]])
     add("list:entities:own+str", lambda c: [c["ds"], "nope"])
@@ -164,6 +170,27 @@ def _setter(key, attr):
 
 
 SCENE_ARRAYS = ("da", "d1", "ds", "dx", "dy", "da-extents", "d2")
+
+# setters of role links / link-valued attributes on entities that HAVE a value (label, scene key, attribute, the key
+# of the value it has): the previous link must survive every refused assignment
+ROLE_SETTERS = [
+    ("MultiTag(with extents).extents", "mte", "extents", "dx"),
+    ("MultiTag(with extents).positions", "mte", "positions", "d1"),
+    ("MultiTag(with metadata).metadata", "mte", "metadata", "s2"),
+    ("Feature(array).data", "ft", "data", "da"),
+    ("Feature(frame).data", "fte", "data", "df"),
+    ("Block(with metadata).metadata", "b", "metadata", "s"),
+    ("DataArray(with metadata).metadata", "d1", "metadata", "s2"),
+    ("DataFrame(with metadata).metadata", "df", "metadata", "s2"),
+    ("Tag(with metadata).metadata", "t", "metadata", "s2"),
+    ("Group(with metadata).metadata", "g", "metadata", "s2"),
+    ("Source(with metadata).metadata", "src", "metadata", "s2"),
+    ("Section(linked).link", "sk", "link", "s2"),
+]
+ROLE_TARGETS = [r[0] for r in ROLE_SETTERS] + [
+    "RangeDimension(linked).link_data_array(array)", "RangeDimension(linked).link_data_frame(frame)",
+    "SetDimension(linked).link_data_frame(frame)", "SetDimension(linked).link_data_array(array)",
+    "RangeDimension.link_data_array(array)", "SetDimension.link_data_frame(frame)"]
 
 
 def _targets():
@@ -291,6 +318,16 @@ def _targets():
     # --- tags and features
     add("MultiTag.positions", _setter("mt", "positions"), lambda c: setattr(c["mt"], "positions", c["d1"]))
     add("MultiTag.extents", _setter("mt", "extents"), lambda c: setattr(c["mt"], "extents", None))
+    for label, key, attr, back in ROLE_SETTERS:
+        add(label, _setter(key, attr), lambda c, key=key, attr=attr, back=back: setattr(c[key], attr, c[back]))
+    add("RangeDimension(linked).link_data_array(array)", lambda c, v: c["rl"].link_data_array(v, [-1]),
+        lambda c: c["rl"].link_data_array(c["d1"], [-1]))
+    add("RangeDimension(linked).link_data_frame(frame)", lambda c, v: c["rl"].link_data_frame(v, 0),
+        lambda c: c["rl"].link_data_array(c["d1"], [-1]))
+    add("SetDimension(linked).link_data_frame(frame)", lambda c, v: c["sl"].link_data_frame(v, 0),
+        lambda c: c["sl"].link_data_frame(c["df"], 1))
+    add("SetDimension(linked).link_data_array(array)", lambda c, v: c["sl"].link_data_array(v, [-1]),
+        lambda c: c["sl"].link_data_frame(c["df"], 1))
     add("Feature.data", _setter("ft", "data"), lambda c: setattr(c["ft"], "data", c["da"]))
     add("Feature.link_type", _setter("ft", "link_type"), lambda c: setattr(c["ft"], "link_type", "tagged"))
     add("Tag.create_feature(data)", lambda c, v: c["t"].create_feature(v, "untagged"),
@@ -737,6 +774,11 @@ CORE = ["list:nul-str:3", "scalar:nul-str", "list:units:3", "list:surrogate-str:
         "list:entities:own+foreign", "list:entities:own+kind", "rows:bad-type", "rows:obj", "coldict:bad-type"]
 assert all(s in SPELLING_INDEX for s in CORE), [s for s in CORE if s not in SPELLING_INDEX]
 
+# what a role link is offered: every entity of the scene (right class / wrong class; this block / the other block /
+# ANOTHER FILE / deleted again), ids, None, a few non-entities
+ROLE_SPELLINGS = [s_[0] for s_ in SPELLINGS if s_[0].startswith(("entity:", "id-of:", "id:"))] + [
+    "scalar:none", "scalar:int", "scalar:str", "scalar:object", "list:entities:own+foreign", "ndarray:f8:3", "list:empty"]
+
 # targets whose refusals usually come after a write that is rolled back (the flushed file's bytes change, so every
 # refusal costs a full snapshot): they get a shorter list of spellings
 ROLLBACK_PREFIXES = ("Block.create_", "File.create_", "Section.create_", "Source.create_", "File.copy_", "Section.copy_",
@@ -792,9 +834,15 @@ def plan(tier, seed, rng, broken=False):
     allsp = [s[0] for s in SPELLINGS]
     rest = [s for s in allsp if s not in CORE]
     respell = [r[0] for r in RS.RESPELLINGS]
-    out = []
+    out, first = [], []
     big = tier != "quick" or broken
     for i, t in enumerate(labels):
+        if t in ROLE_TARGETS:
+            # in every run, every entity spelling; the scene alternates with the seed
+            scenes = (False, True) if big else ((i + seed) % 2 == 1,)
+            for long in scenes:
+                first.append((long, t, ROLE_SPELLINGS + (rng.sample(CORE, 12) if big else [])))
+            continue
         if t in VALID:
             if not big and is_rollback(t) and (i + seed) % 2 != 0:
                 continue            # creating / copying calls: every other quick run
@@ -819,4 +867,4 @@ def plan(tier, seed, rng, broken=False):
             core = CORE if n_core >= len(CORE) else rng.sample(CORE, n_core)
             sp = list(core) + rng.sample(rest, min(n_extra, len(rest)))
             out.append((long, t, sp))
-    return out
+    return first + out
